@@ -152,6 +152,7 @@ def run(ctx):
         lp = poll_loops(rb)[0]
         after = [s for s in stmts_of(rb) if s.get('_off', 0) > lp.get('_off', 0)]
         drain = [s for s in after if s.get('kind') == 'CXXForRangeStmt' and any(c.get('kind') == 'CallExpr' and call_name(c) == 'read' for c in walk(s))]
+        drain_other_form = False
         okd = len(drain) == 1 and any(canon(x) == 'read_fd_to_buffer' for x in walk(drain[0]) if x.get('kind') == 'DeclRefExpr')
         if okd:
             inner = [x for x in walk(drain[0]) if x.get('kind') == 'ForStmt' and for_parts(x)[2] is None]
@@ -165,7 +166,14 @@ def run(ctx):
                     again = any(op == '<' and v == '0' for a, op, v in z) and any('EAGAIN' in t or 'errno' in t for t in [nf(n_) for n_, p_ in atoms(path_facts(b)) if p_])
                     okd = okd and (eof or again)
                 okd = okd and len(brk) >= 2
-        if not drain and any(c.get('kind') == 'CallExpr' and call_name(c) == 'read' for s_ in after for c in walk_deep(s_, u)):
+                # same loop, exits written differently (merged arms, `continue` after a successful read): every exit is
+                # still taken only when nothing was read -> not a recognised-wrong construct, the exact form is undecided
+                if not okd and brk and all(any(a == 'bytes_read' and op in ('<=', '<', '==') and v == '0' for a, op, v in facts_rel(b)) for b in brk) \
+                        and not any(x.get('kind') in ('ReturnStmt', 'GotoStmt') for x in walk(inner[0])):
+                    drain_other_form = True
+        if not okd and drain_other_form:
+            ctx.undecided(R, 'run_process|post-exit-drain', drain[0], 'the post-exit drain loop leaves only on paths where the read returned nothing (bytes_read <= 0), but its exits are not written as the two arms (0 / EAGAIN) this rule models')
+        elif not drain and any(c.get('kind') == 'CallExpr' and call_name(c) == 'read' for s_ in after for c in walk_deep(s_, u)):
             ctx.undecided(R, 'run_process|post-exit-drain', runp, 'the post-exit drain reads through a helper function: its loop shape is not the one this rule models')
         else:
           ctx.check(okd, R, 'run_process|post-exit-drain', drain[0] if drain else runp, 'after the child is reaped every registered output descriptor is read until 0 / EAGAIN', 'run_process has no complete post-exit drain of its output descriptors: output written just before exit is lost')
